@@ -23,9 +23,10 @@ import (
 //	rtp      $z = 1 << [1];               runtime error that is a Go-level failure today
 //	try      nested try statement
 type Act struct {
-	K   string `json:"k"`
-	Cls string `json:"cls,omitempty"`
-	Try *Try   `json:"try,omitempty"`
+	K    string `json:"k"`
+	Cls  string `json:"cls,omitempty"`
+	Form string `json:"form,omitempty"` // action "x" (expr.go): the expression form around the throwing operand
+	Try  *Try   `json:"try,omitempty"`
 }
 
 type Catch struct {
@@ -109,6 +110,8 @@ func (a Act) canon() string {
 		return "throw " + a.Cls
 	case "call":
 		return "call " + a.Cls
+	case "x":
+		return "x:" + a.Form + "(" + a.Cls + ")"
 	case "try":
 		return a.Try.canon()
 	}
@@ -198,6 +201,8 @@ func validAct(a Act, ctx string, inCatch, inFin bool) bool {
 		return a.Cls == "E0" || a.Cls == "E1" || a.Cls == "E2" || a.Cls == "E3"
 	case "re":
 		return inCatch
+	case "x":
+		return exprValid(a, ctx)
 	case "ret":
 		return ctxIsFunc(ctx)
 	case "brk", "cnt":
@@ -228,6 +233,7 @@ func validAct(a Act, ctx string, inCatch, inFin bool) bool {
 type nAct struct {
 	K    string
 	Cls  string
+	Form string
 	Site int
 	Try  *nTry
 }
@@ -246,7 +252,7 @@ type numberer struct{ try, site int }
 
 func (n *numberer) act(a Act) nAct {
 	n.site++
-	r := nAct{K: a.K, Cls: a.Cls, Site: n.site}
+	r := nAct{K: a.K, Cls: a.Cls, Form: a.Form, Site: n.site}
 	if a.K == "try" {
 		r.Try = n.tryStmt(a.Try)
 	}
@@ -309,6 +315,8 @@ func (r *render) act(a nAct, ind int, catchVar string) {
 		r.line(ind, `$z = 1 % 0;`)
 	case "rtm":
 		r.line(ind, fmt.Sprintf(`$o = new %s(); $o->nope();`, r.name("K")))
+	case "x":
+		r.line(ind, r.exprStmt(a))
 	case "rth":
 		r.line(ind, `c05_host_fail();`)
 	case "rtp":
@@ -347,7 +355,9 @@ func sfxFor(seed int64) string {
 }
 
 // header renders the declarations every program starts with.
-func header(seed int64, throwers bool) string {
+func header(seed int64, throwers bool) string { return headerX(seed, throwers, false) }
+
+func headerX(seed int64, throwers, exprs bool) string {
 	r := &render{sfx: sfxFor(seed)}
 	K, I := r.name("K"), r.name("I")
 	r.line(0, fmt.Sprintf("class %s { public static $last = null; }", K))
@@ -364,10 +374,13 @@ func header(seed int64, throwers bool) string {
 		bits = append(bits, fmt.Sprintf(`(($o instanceof %s) ? "1" : "0")`, r.name(c)))
 	}
 	r.line(0, fmt.Sprintf("function %s($o) { return %s; }", r.name("bits"), strings.Join(bits, " . ")))
-	if throwers {
+	if throwers || exprs {
 		for _, c := range []string{"E0", "E1", "E2", "E3"} {
 			r.line(0, fmt.Sprintf(`function %s() { $x = new %s("f%s"); %s::$last = $x; throw $x; }`, r.name("thrower_"+c), r.name(c), c, K))
 		}
+	}
+	if exprs {
+		exprHeader(r)
 	}
 	return r.sb.String()
 }
@@ -375,7 +388,7 @@ func header(seed int64, throwers bool) string {
 // source renders the program as plain (.zy) origami source.
 func source(p Prog, seed int64) string {
 	r := &render{sfx: sfxFor(seed)}
-	r.sb.WriteString(header(seed, p.Root.uses("call")))
+	r.sb.WriteString(headerX(seed, p.Root.uses("call"), p.Root.uses("x")))
 	root := number(p)
 	switch p.Ctx {
 	case "top":
@@ -473,6 +486,8 @@ func (b bounds) hasFamily(fam, ctx string) bool {
 	switch fam {
 	case "d1", "d1x":
 		return ctx != "calls"
+	case "d1e":
+		return ctx == "top" || ctx == "func" || ctx == "for"
 	case "d1i":
 		return ctxRepeats(ctx) // the point of the family is the SAME throw handled repeatedly in one run
 	case "d3":
@@ -617,7 +632,7 @@ func d1iCatchBodies(ctx string) []Act {
 	return r
 }
 
-var families = []string{"d1", "d1x", "d1i", "d2body", "d2catch", "d2fin", "d3"}
+var families = []string{"d1", "d1x", "d1i", "d1e", "d2body", "d2catch", "d2fin", "d3"}
 
 // enumerate calls f with every program of the family in the context, in a fixed order. The
 // Prog passed to f shares structure with the enumerator: clone() it to keep it.
@@ -641,6 +656,8 @@ func enumerate(b bounds, fam, ctx string, f func(Prog)) {
 		// depth 1, at most one catch, the catch / finally bodies that d1 leaves out: runtime errors
 		// (control-level and Go-level) and a throwing call inside a catch body or a finally body
 		tries(acts(b.D1Body, ctx, false), b.D1Types, 1, acts(b.D1xCatch, "top", false), fins(b.D1xFins, ctx), emit)
+	case "d1e":
+		enumExpr(ctx, emit)
 	case "d1i":
 		// depth 1 in the repeating contexts (2 loop iterations / 3 calls): an exception whose class
 		// reaches the caught interface through a 3-level extends chain, every ordered list of <= 2
